@@ -39,6 +39,10 @@ def _walk(spec, scope, path, ignore, ser, files, collectors, rtti):
             if qual in ignore:
                 continue
             tag = ''.join(path) + i['n']
+            if '<' in i['cpp']:
+                # an instantiation is tagged with the namespaces of its *template* (they differ from `path` for a typedef
+                # written in another namespace); the file still goes to the package of the scope that declares it
+                tag = ''.join(i['cpp'].split('<')[0].split('::')[:-1]) + i['n']
             collectors.append((R.norm(i['cpp']) if '<' not in i['cpp'] else i['n'], tag))
             if i['v']:
                 rtti.append(tag)
